@@ -153,13 +153,33 @@ def attach_body(ir, variant=0):
     return ir
 
 
-def run_sequences(ctx, ir0, feat, seqs, opts_table, base0, body):
+def run_sequences(ctx, ir0, feat, seqs, opts_table, base0, body, call=None, flip=False):
+    call = body if call is None else call
     baseline = {}
-    for kind in ALL_KINDS:
+    # every conversion alone, on its own fresh copy -- twice, in opposite orders: what a conversion gives "alone" must
+    # not depend on which other conversions already ran in this process on equal (not shared) descriptions
+    order = list(reversed(ALL_KINDS)) if flip else list(ALL_KINDS)
+    for kind in order:
         o = dict(opts_table[kind])
-        if kind == "class" and body:
+        if kind == "class" and call:
             o["emit_call"] = True
         baseline[kind] = emit_or_exc(kind, deepcopy(ir0), o)
+    for kind in reversed(order):
+        o = dict(opts_table[kind])
+        if kind == "class" and call:
+            o["emit_call"] = True
+        again = emit_or_exc(kind, deepcopy(ir0), o)
+        ctx.event("fresh_copy_repeats")
+        if again != baseline[kind]:
+            if again[0] == "ok" and baseline[kind][0] == "ok":
+                tag, where = drift_tag(baseline[kind][1], again[1])
+            else:
+                tag, where = "outcome:{}->{}".format(baseline[kind][0], again[0]), str((baseline[kind], again))[:200]
+            ctx.report(dict(base0, field="interference_between_fresh_copies", victim=kind, tag=tag, body=body, emit_call=bool(call),
+                            expected=where[:300], observed=""),
+                       {"ir": ir_jsonable(ir0), "feat": feat, "seq": [], "body": body, "body_variant": base0.get("body_variant") or 0,
+                        "alt": opts_table is ALT_OPTS, "call": bool(call), "flip": flip})
+            return
     known_pairs = set()
     for seq in seqs:
         shared = deepcopy(ir0)
@@ -167,7 +187,7 @@ def run_sequences(ctx, ir0, feat, seqs, opts_table, base0, body):
         ctx.event("sequences_len{}".format(len(seq)))
         for k, kind in enumerate(seq):
             o = dict(opts_table[kind])
-            if kind == "class" and body:
+            if kind == "class" and call:
                 o["emit_call"] = True
             got = emit_or_exc(kind, shared, o)
             ctx.event("calls")
@@ -185,7 +205,7 @@ def run_sequences(ctx, ir0, feat, seqs, opts_table, base0, body):
                          seq_len=len(seq), culprit_pairs=culprits, body=body,
                          expected=where[:300], observed="")
                 ctx.report(d, {"ir": ir_jsonable(ir0), "feat": feat, "seq": list(seq), "body": body,
-                               "body_variant": base0.get("body_variant") or 0, "alt": opts_table is ALT_OPTS})
+                               "body_variant": base0.get("body_variant") or 0, "alt": opts_table is ALT_OPTS, "call": bool(call), "flip": flip})
                 break
 
 
@@ -248,8 +268,8 @@ def run(ctx):
         ctx.require("contract:emit." + n, 10)
     ctx.require("contract:parse.function", 5)
     ctx.require("sequences", 50)
-    g = IRGen(ctx.rng, knobs(p_return=0.7, argparse_domain=False))
-    n_irs = ctx.n(60, 800)
+    g = IRGen(ctx.rng, knobs(p_return=0.7, argparse_domain=False, p_return_over_params=0.5))
+    n_irs = ctx.n(96, 800)
     all3 = list(itertools.product(ALL_KINDS, repeat=3))
     all4 = list(itertools.product(ALL_KINDS, repeat=4))
     pairs = list(itertools.product(ALL_KINDS, repeat=2))
@@ -281,9 +301,13 @@ def run(ctx):
                              "example_sequence": list(seqs[-1])}, sample_key=body)
             ctx.feature("with_body" if body else "without_body")
             ctx.feature("with_return" if feat["has_return"] else "without_return")
-            run_sequences(ctx, ir0, feat, seqs, OPTS, base0, body)
+            # a class with a __call__ method: always when a body is carried, and for every other description without one
+            call = body or (i // 2) % 2 == 0
+            base0["class_emitted_with_call"] = call
+            ctx.feature("class_with_call" if call else "class_without_call")
+            run_sequences(ctx, ir0, feat, seqs, OPTS, base0, body, call=call, flip=bool((i // 4) % 2))
             if i % 3 == 0:
-                run_sequences(ctx, ir0, feat, pairs, ALT_OPTS, dict(base0, alt_opts=True), body)
+                run_sequences(ctx, ir0, feat, pairs, ALT_OPTS, dict(base0, alt_opts=True), body, call=call, flip=not bool((i // 4) % 2))
             check_parsers(ctx, ir0, feat, base0)
     finally:
         undo()
@@ -301,6 +325,7 @@ def replay(payload):
         attach_body(ir0, rp.get("body_variant", 0))
     if "seq" in rp:
         seq = tuple(rp["seq"])
-        seqs = [(a, seq[-1]) for a in set(seq[:-1])] + [seq]
-        run_sequences(ctx, ir0, rp["feat"], seqs, ALT_OPTS if rp.get("alt") else OPTS, {"op": OP}, bool(rp.get("body")))
+        seqs = ([(a, seq[-1]) for a in set(seq[:-1])] + [seq]) if seq else []
+        run_sequences(ctx, ir0, rp["feat"], seqs, ALT_OPTS if rp.get("alt") else OPTS, {"op": OP}, bool(rp.get("body")),
+                      call=rp.get("call"), flip=bool(rp.get("flip")))
     return ctx
